@@ -908,11 +908,27 @@ def check_time_pivots(ctx, f):
 # ---------------------------------------------------------------------------
 # α-normalised rendering and dominating branch conditions (shared by C03/C04/…)
 
+_KEEP_LOCAL_NAMES = [False]
+
+
+class keeping_local_names:
+    """Within the block, alpha() keeps the names of locals (`$x`, `x⟵`, `^x`): two occurrences of `$x` are then known
+    to be the same local, which `$` alone does not say."""
+
+    def __enter__(self):
+        self.old = _KEEP_LOCAL_NAMES[0]
+        _KEEP_LOCAL_NAMES[0] = True
+
+    def __exit__(self, *a):
+        _KEEP_LOCAL_NAMES[0] = self.old
+
+
 def alpha(s, body):
     """α-normalise a rendered provenance term: local and parameter names do not matter."""
-    s = re.sub(r"\$\w+", "$", s)
-    s = re.sub(r"\b\w+⟵", "⟵", s)
-    s = re.sub(r"\^\w+", "^", s)
+    if not _KEEP_LOCAL_NAMES[0]:
+        s = re.sub(r"\$\w+", "$", s)
+        s = re.sub(r"\b\w+⟵", "⟵", s)
+        s = re.sub(r"\^\w+", "^", s)
     for i in range(1, body.arg_count + 1):
         nm = body.local_name(i)
         if nm and nm != "self":
